@@ -41,6 +41,10 @@ enum Call {
     /// label (same length, same first 40 bytes, last byte differs).  Resolved at run time.
     FreshKind(u8),
     Fresh(Vec<u8>),
+    /// the same calls on a second deployment that lives in the same process: another circuit with
+    /// the same label and constraint count (or the same circuit padded to another size)
+    Prove2(u64),
+    Verify2(usize),
 }
 
 #[derive(Clone, Debug, PartialEq)]
@@ -49,7 +53,16 @@ enum Outcome {
     Verdict(bool),
 }
 
+struct Second {
+    prover: Prover,
+    verifier: Verifier,
+    prog: Arc<Program>,
+    tape: Tape,
+    msgs: Vec<Msg>,
+}
+
 struct Shared {
+    second: Option<Second>,
     prover: Prover,
     verifier: Verifier,
     pp: PublicParameters,
@@ -75,6 +88,24 @@ fn exec(sh: &Shared, call: &Call, env: &EnvCfg) -> Outcome {
             let m = &sh.msgs[*i];
             let ok = match Proof::from_slice(&m.proof) {
                 Ok(p) => deploy::verify(&sh.verifier, &p, &m.pi, m.version, env).is_ok(),
+                Err(_) => false,
+            };
+            Outcome::Verdict(ok)
+        }
+        Call::Prove2(seed) => {
+            let s2 = sh.second.as_ref().expect("second deployment");
+            let mut rng = ScriptedRng::new(*seed);
+            match deploy::prove(&s2.prover, &s2.prog, &s2.tape, &mut rng, PlonkVersion::V3, env) {
+                Ok((p, _)) => Outcome::Bytes(proof_bytes(&p)),
+                Err(e) => Outcome::Bytes(format!("{:?}", e).into_bytes()),
+            }
+        }
+        Call::Verify2(i) => {
+            use dusk_bytes::DeserializableSlice;
+            let s2 = sh.second.as_ref().expect("second deployment");
+            let m = &s2.msgs[*i % s2.msgs.len()];
+            let ok = match Proof::from_slice(&m.proof) {
+                Ok(p) => deploy::verify(&s2.verifier, &p, &m.pi, m.version, env).is_ok(),
                 Err(_) => false,
             };
             Outcome::Verdict(ok)
@@ -184,8 +215,36 @@ fn build_shared_inner(seed: u64, run: u64, thorough: bool, st: &mut Stats) -> Op
         }
         msgs.push(m);
     }
+    // a second deployment in the same process (two thirds of the scenarios)
+    let second = if w.chance(2, 3) {
+        let prog2 = if w.chance(1, 2) {
+            crate::history::same_size_twin(&sc, &mut w)
+        } else {
+            let mut p = (*sc.prog).clone();
+            p.ops.push(crate::program::Op::Filler(*w.pick(&[1usize, 8, 9, 40])));
+            Some(p)
+        };
+        prog2.and_then(|p2| {
+            let c2 = crate::program::count_constraints(&p2)?;
+            let prog2 = Arc::new(p2);
+            let pp2 = deploy::pp_with_degree(deploy::min_degree_for(c2).max(sc.degree));
+            let (prover2, verifier2) = deploy::compile(&pp2, &sc.label, &prog2, Route::WithCircuit, &canon).ok()?;
+            let mut tr = Rng::new(w.u64());
+            let tape2 = crate::program::honest_tape(&prog2, &mut tr);
+            let mut rng = ScriptedRng::new(sc.rng_seed ^ 0x22);
+            let (p, pi) = deploy::prove(&prover2, &prog2, &tape2, &mut rng, PlonkVersion::V3, &canon).ok()?;
+            let good = Msg { proof: proof_bytes(&p), pi, version: PlonkVersion::V3 };
+            // the first deployment's honest proof delivered to the second verifier: a reject
+            let mut cross = msgs[0].clone();
+            cross.pi.resize(good.pi.len(), BlsScalar::zero());
+            Some(Second { prover: prover2, verifier: verifier2, prog: prog2, tape: tape2, msgs: vec![good, cross] })
+        })
+    } else {
+        None
+    };
+    let has_second = second.is_some();
     let callers = if thorough { 2 + w.usize(15) } else { 2 + w.usize(3) };
-    let mut sh = Shared { prover, verifier, pp, prog: sc.prog.clone(), tape: sc.tape.clone(), msgs, plans: Vec::new(), label: sc.label.clone(), run };
+    let mut sh = Shared { second, prover, verifier, pp, prog: sc.prog.clone(), tape: sc.tape.clone(), msgs, plans: Vec::new(), label: sc.label.clone(), run };
     let mut plans = Vec::new();
     // label storm (half of the scenarios): every caller starts with a call under a label the
     // process has never seen, most of them the same one, so that the cold path of the label
@@ -203,7 +262,15 @@ fn build_shared_inner(seed: u64, run: u64, thorough: bool, st: &mut Stats) -> Op
                 3..=4 => Call::Verify(w.usize(2)),
                 5 => Call::ProverBytes,
                 6 => Call::VerifierBytes,
-                8..=9 => Call::FreshKind(w.below(3) as u8),
+                8 => Call::FreshKind(w.below(3) as u8),
+                9 if has_second => {
+                    if w.chance(1, 2) {
+                        Call::Prove2(sc.rng_seed ^ 0x22 ^ w.below(2))
+                    } else {
+                        Call::Verify2(w.usize(2))
+                    }
+                }
+                9 => Call::FreshKind(w.below(3) as u8),
                 _ => {
                     let mut l = sc.label.clone();
                     if w.chance(1, 2) {
